@@ -274,14 +274,29 @@ def compile_object(src, flags, incs, compiler='g++'):
                 return obj, None
         except (ValueError, OSError):
             pass
-    dfile = cdir / f'{tag}.d'
-    cmd = [compiler] + flags + [f'-I{i}' for i in incs] + ['-MMD', '-MF', str(dfile), '-c', str(src), '-o', str(obj)]
+    # several checks share translation units (the argument-handler harness and library): compile into files of this
+    # process and move them into place, so that a check running at the same time never links a half-written object
+    dfile = cdir / f'{tag}.{os.getpid()}.d'
+    tmpobj = cdir / f'{tag}.{os.getpid()}.tmp.o'
+    cmd = [compiler] + flags + [f'-I{i}' for i in incs] + ['-MMD', '-MF', str(dfile), '-MT', str(obj), '-c', str(src), '-o', str(tmpobj)]
     rc, out, err = sh(cmd, timeout=900)
     if rc != 0:
+        for f in (dfile, tmpobj):
+            try:
+                f.unlink()
+            except OSError:
+                pass
         return None, f'{src}: ' + (out + err)[-3000:]
     deps = {d: file_hash(d) for d in _parse_depfile(dfile)}
     deps[str(src)] = file_hash(src)
-    meta.write_text(json.dumps(deps))
+    tmpmeta = cdir / f'{tag}.{os.getpid()}.json.tmp'
+    tmpmeta.write_text(json.dumps(deps))
+    os.replace(tmpobj, obj)
+    os.replace(tmpmeta, meta)
+    try:
+        dfile.unlink()
+    except OSError:
+        pass
     return obj, None
 
 
